@@ -92,8 +92,24 @@ var graphSpecs = []graphSpec{
 	}},
 }
 
+// extraSpecs are graphs used by particular plans only (not crossed with every
+// assignment of initial states).
+var extraSpecs = []graphSpec{
+	{"forkphase", 4, func() *graph {
+		// a producer phase shared by two independent single-task consumers (two slices
+		// computed from one shuffle): the roots of two different evaluations
+		p0 := mkTask("p", 0)
+		p1 := mkTask("p", 1)
+		p0.Group = []*exec.Task{p0, p1}
+		p1.Group = p0.Group
+		x := mkTask("x", 0, exec.TaskDep{Head: p0, Partition: 0})
+		y := mkTask("y", 0, exec.TaskDep{Head: p0, Partition: 0})
+		return &graph{"forkphase", []*exec.Task{p0, p1, x, y}, []*exec.Task{x, y}}
+	}},
+}
+
 func specByName(n string) graphSpec {
-	for _, g := range graphSpecs {
+	for _, g := range append(append([]graphSpec{}, graphSpecs...), extraSpecs...) {
 		if g.name == n {
 			return g
 		}
@@ -311,8 +327,10 @@ func (h *hexec) checkReturn(err error, roots []*exec.Task) {
 				vsched.Fail("Eval returned nil but root %s (state %s) never completed successfully", tname(r), st)
 			}
 		}
-		if len(h.choseErr) > 0 {
-			vsched.Fail("Eval returned nil although task %s failed fatally", tname(h.choseErr[0]))
+		for _, t := range h.choseErr {
+			if inClosure(roots, t) {
+				vsched.Fail("Eval returned nil although task %s failed fatally", tname(t))
+			}
 		}
 		return
 	}
@@ -323,10 +341,47 @@ func (h *hexec) checkReturn(err error, roots []*exec.Task) {
 	if h.env.alwaysLost {
 		return
 	}
-	// an error is legitimate only if some task failed fatally (now or before entry)
-	if len(h.choseErr) == 0 && !h.anyErrAtEntry {
+	// an error is legitimate only if some task this evaluation needs failed fatally (now or
+	// before entry); an evaluation of other roots is not concerned by it
+	mine := false
+	for _, t := range h.choseErr {
+		if inClosure(roots, t) {
+			mine = true
+		}
+	}
+	if !mine && !h.anyErrAtEntry {
 		vsched.Fail("Eval returned an error although no task failed fatally and losses stayed below the limit: %v", firstLine(err.Error()))
 	}
+}
+
+// inClosure reports whether t is one of roots or a (transitive) dependency of one.
+func inClosure(roots []*exec.Task, t *exec.Task) bool {
+	seen := map[*exec.Task]bool{}
+	var walk func(x *exec.Task) bool
+	walk = func(x *exec.Task) bool {
+		if x == t {
+			return true
+		}
+		if seen[x] {
+			return false
+		}
+		seen[x] = true
+		for _, d := range depTasks(x) {
+			if walk(d) {
+				return true
+			}
+		}
+		return false
+	}
+	for _, r := range roots {
+		// the evaluator treats a root's phase as a unit
+		for _, x := range r.Phase() {
+			if walk(x) {
+				return true
+			}
+		}
+	}
+	return false
 }
 
 func firstLine(s string) string {
@@ -347,6 +402,9 @@ type scenState struct {
 }
 
 // makeScenario builds scenario "<graph>@<init>/<env>[/2]" e.g. "diamond@IOLI/loss1".
+// evalsSplit as the evals argument of makeScenario selects the "/2split" variant.
+const evalsSplit = 3
+
 func makeScenario(gname, init, envName string, evals int) *mc.Scenario {
 	spec := specByName(gname)
 	var e env
@@ -356,6 +414,10 @@ func makeScenario(gname, init, envName string, evals int) *mc.Scenario {
 		e = env{lostBudget: 1}
 	case "loss2":
 		e = env{lostBudget: 2}
+	case "loss4":
+		// one below the consecutive-loss limit: the evaluation must still succeed, however
+		// many evaluations watch the losses
+		e = env{lostBudget: 4}
 	case "err":
 		e = env{lostBudget: 1, allowErr: true}
 	case "chaos1":
@@ -375,6 +437,14 @@ func makeScenario(gname, init, envName string, evals int) *mc.Scenario {
 	name := fmt.Sprintf("%s@%s/%s", gname, init, envName)
 	if evals == 2 {
 		name += "/2"
+	}
+	// split: two concurrent evaluations, the first of all roots, the second of the last
+	// root only — one can end (with a task's fatal error) while the other still waits
+	// for a task they share
+	split := evals == evalsSplit
+	if split {
+		name += "/2split"
+		evals = 2
 	}
 	st := &scenState{}
 	sc := &mc.Scenario{Name: name}
@@ -423,11 +493,15 @@ func makeScenario(gname, init, envName string, evals int) *mc.Scenario {
 				wg.Add(1)
 				vsched.Go(fmt.Sprintf("eval%d", k), func() {
 					defer wg.Done()
-					err := exec.Eval(context.Background(), h, g.roots, nil)
+					roots := g.roots
+					if split && k == 1 {
+						roots = g.roots[len(g.roots)-1:]
+					}
+					err := exec.Eval(context.Background(), h, roots, nil)
 					st.errs[k] = err
 					vsched.Touch(monitorKey)
 					finished++
-					h.checkReturn(err, g.roots)
+					h.checkReturn(err, roots)
 				})
 			}
 			wg.Wait()
@@ -476,6 +550,9 @@ func makeScenario(gname, init, envName string, evals int) *mc.Scenario {
 		initClass = "reused"
 	}
 	sc.SigGroup = fmt.Sprintf("S/%s/evals%d", initClass, evals)
+	if split {
+		sc.SigGroup += "split"
+	}
 	return sc
 }
 
@@ -598,6 +675,17 @@ func buildPlans(thorough bool) []planSpec {
 	if thorough {
 		b = 3
 	}
+	// two concurrent evaluations of different root sets sharing tasks; one may end in an error
+	for _, g := range []string{"tworoots", "forkphase"} {
+		fresh := strings.Repeat("I", specByName(g).ntasks)
+		add(g, fresh, "err", evalsSplit, true, b)
+		add(g, fresh, "loss1", evalsSplit, true, b-1)
+		add(g, fresh, "err", evalsSplit, false, 1)
+	}
+	add("single", "I", "loss4", 1, true, b)
+	add("single", "I", "loss4", 2, true, b)
+	add("chain2", "II", "loss4", 2, true, b-1)
+	add("tworoots", "III", "loss4", evalsSplit, true, b-1)
 	add("single", "I", "alwayslost", 1, true, b)
 	add("chain2", "II", "alwayslost", 1, true, b)
 	add("chain2", "OI", "alwayslost", 1, true, b)
@@ -666,6 +754,9 @@ func makeScenarioName(p planSpec) string {
 	name := fmt.Sprintf("%s@%s/%s", p.graph, p.init, p.env)
 	if p.evals == 2 {
 		name += "/2"
+	}
+	if p.evals == evalsSplit {
+		name += "/2split"
 	}
 	return name
 }
